@@ -447,7 +447,7 @@ func init() {
 		Assumptions: []string{"the expected value of a single-quoted literal follows strconv's escape rules with ' escaped and \" bare"},
 		Batches:     func(t string) int { return 1 },
 		Floor:       func(t string) int { return pick(t, 3000, 20000) },
-		TimeoutSec:  func(t string) int { return pick(t, 600, 1800) },
+		TimeoutSec:  func(t string) int { return pick(t, 120, 1800) },
 		Child:       c18Child,
 	})
 }
